@@ -716,6 +716,8 @@ pub struct Disk {
     pub fail_writes: BTreeSet<u64>,
     /// ordinals (0-based) of tokio::fs::read calls that fail
     pub fail_reads: BTreeSet<u64>,
+    /// disk full from this write ordinal on
+    pub full_from: Option<u64>,
     pub writes: u64,
     pub reads: u64,
 }
@@ -732,6 +734,7 @@ impl Default for Disk {
             cwd: "/sim/cwd".to_string(),
             fail_writes: BTreeSet::new(),
             fail_reads: BTreeSet::new(),
+            full_from: None,
             writes: 0,
             reads: 0,
         }
@@ -773,9 +776,12 @@ impl Disk {
         let abs = self.resolve(raw);
         let ord = self.writes;
         self.writes += 1;
-        let ok = !self.fail_writes.contains(&ord) && self.parent_exists(&abs) && !self.dirs.contains(&abs);
+        let full = self.full_from.map(|f| ord >= f).unwrap_or(false);
+        let ok = !full && !self.fail_writes.contains(&ord) && self.parent_exists(&abs) && !self.dirs.contains(&abs);
         if ok {
             self.files.insert(abs.clone(), data.to_vec());
+        } else if full {
+            bump("disk_full_write_error");
         } else if self.fail_writes.contains(&ord) {
             bump("disk_write_error");
         }
